@@ -138,6 +138,12 @@ def commonPrefix : List Block → List Block → Nat
 
 def Sim.full (s : Sim) : Bool := s.cfg.cache == 0
 
+/-- Cache sizes whose flush decisions the Model can name: 0 = always full, 2 MiB = never. -/
+def sizeKnown (n : Nat) : Bool := n == 0 || n == 2097152
+
+/-- Threshold outcomes for a replay with cache size `n` (enough for any generated chain). -/
+def fullsFor (n : Nat) : List Bool := List.replicate 4096 (n == 0)
+
 def Sim.emit (s : Sim) (r : String) : Sim := { s with out := r :: s.out }
 
 def Sim.modelStep (s : Sim) (op : Op) : Sim :=
@@ -198,7 +204,7 @@ def slotStr (o : OutPoint) : Slot → Option String
 def dumpStr (m : State) (known : List OutPoint) : String :=
   let c := join "," (known.filterMap (fun o => slotStr o (m.cache.get o)))
   let d := join "," (known.filterMap (fun o => (m.db o).map (fun e => s!"{opStr o}:{entryStr e}")))
-  s!"c={c};d={d};l={m.lastFlush}"
+  s!"c={c};d={d};l={m.lastFlush};m={m.marker}"
 
 def parseMode? (c : Char) : Option Mode :=
   if c == 'r' then some .required else if c == 'p' then some .periodic
@@ -215,6 +221,21 @@ def Sim.op (s : Sim) (tok : String) : Option Sim :=
   | ['P'] =>
     let s := s.modelStep (.flush .required s.full false)
     pure (s.emit s!"d={utxoStr (utxoOf s.chain) s.known};m={s.tip}")
+  | 'X' :: rest => do
+    -- unclean shutdown + start-up with cache size `n` that completes
+    let n ← (String.ofList rest).toNat?
+    let m := if sizeKnown n then s.model.bind (fun m => restart m (fullsFor n)) else none
+    pure ({ s with model := m, cfg := { s.cfg with cache := n } }.emit "ok")
+  | 'Y' :: rest => do
+    -- unclean shutdown + start-up that is interrupted after the first replayed block
+    let n ← (String.ofList rest).toNat?
+    match s.model with
+    | none => pure (s.emit "model-assert")
+    | some m =>
+      if (crashed m).2.isEmpty then
+        pure ({ s with model := restart m (fullsFor n), cfg := { s.cfg with cache := n } }.emit "ok")
+      else
+        pure ({ s with model := restartAborted m 1 (fullsFor n), cfg := { s.cfg with cache := n } }.emit "int")
   | ['R'] =>
     -- graceful restart = required flush; the reloaded cache is empty and names the tip
     pure ((s.modelStep (.flush .required s.full false)).emit "ok")
